@@ -7,7 +7,7 @@ import verif as V
 import locks
 
 PROP = "C20"
-SPEC = ["Bng.Spec.C20", "Bng.Spec.C20Index"] + ["Bng.Spec.C20Locks", "Bng.Spec.C16Locks"]
+SPEC = ["Bng.Spec.C20", "Bng.Spec.C20Index"] + ["Bng.Spec.C20Locks", "Bng.Spec.C16Locks", "Bng.Spec.C20QinqMon"]
 MON = ["dup-key", "id-unique", "range", "fwd-rev", "release-frame"]
 # all five components are hosted by ONE harness binary (harness/cmd/c20, one link instead of five); the component is
 # selected through the environment.  harness/cmd/<component> hosts each one alone (same code, bngverif/c20/<component>).
